@@ -32,21 +32,25 @@ Theorem C17_poly_cost_old_deviation : forall t isq c0 c1 c2 p,
 Proof. exact poly_cost_old_deviation. Qed.
 Print Assumptions C17_poly_cost_old_deviation.
 
-(* reactive power: holds under G17q (a dcline has no linear reactive cost) — the dcline sign for q is +1 while
-   res_dcline.q_from_mvar = - Qg *)
-Theorem C17_poly_qcost_partial : forall t isq c0 c1 c2 q,
-  (isq = false -> c2 == 0) -> G17q t c1 = true ->
+(* reactive power: likewise for every element kind (the dcline takes the sign -1 for q as res_dcline.q_from_mvar = -Qg) *)
+Theorem C17_poly_qcost : forall t isq c0 c1 c2 q,
+  (isq = false -> c2 == 0) ->
   polycost (row_of (cells_of isq (sign_q t) c2 c1 c0)) (res_sign t * q) == user_poly c0 c1 c2 q.
-Proof. exact poly_qcost_partial. Qed.
-Print Assumptions C17_poly_qcost_partial.
-
-Theorem C17_poly_qcost_refuted :
+Proof. exact poly_qcost. Qed.
+Print Assumptions C17_poly_qcost.
+(* regression: the reactive sign rule before the repair (dcline +1) holds only without a linear term on a dcline *)
+Theorem C17_poly_qcost_old_refuted :
   exists t isq c0 c1 c2 q, (isq = false -> c2 == 0) /\
-    ~ polycost (row_of (cells_of isq (sign_q t) c2 c1 c0)) (res_sign t * q) == user_poly c0 c1 c2 q.
-Proof. exact poly_qcost_refuted. Qed.
-Print Assumptions C17_poly_qcost_refuted.
+    ~ polycost (row_of (cells_of isq (sign_q_old t) c2 c1 c0)) (res_sign t * q) == user_poly c0 c1 c2 q.
+Proof. exact poly_qcost_old_refuted. Qed.
+Print Assumptions C17_poly_qcost_old_refuted.
+Theorem C17_poly_qcost_old_partial : forall t isq c0 c1 c2 q,
+  (isq = false -> c2 == 0) -> G17q_old t c1 = true ->
+  polycost (row_of (cells_of isq (sign_q_old t) c2 c1 c0)) (res_sign t * q) == user_poly c0 c1 c2 q.
+Proof. exact poly_qcost_old_partial. Qed.
+Print Assumptions C17_poly_qcost_old_partial.
 
-Example C17_nonvacuous : G17old Load 0 0 = true /\ G17old Gen 5 2 = true /\ G17q Storage 1 = true /\ G17q Dcline 0 = true.
+Example C17_nonvacuous : G17old Load 0 0 = true /\ G17old Gen 5 2 = true /\ G17q_old Storage 1 = true /\ G17q_old Dcline 0 = true.
 Proof. repeat split. Qed.
 
 (* whole table: when the mapped row indices are valid and pairwise distinct, after all writes of _fill_gencost_poly
@@ -77,12 +81,47 @@ Theorem C17_pwl_single_area : forall t l u sl p, ~ u == l ->
 Proof. exact pwl_single_area. Qed.
 Print Assumptions C17_pwl_single_area.
 
-(* with two areas of different slope on a load the row is NOT the user's function (x-values not mirrored) *)
-Theorem C17_pwl_refuted :
+(* two convex areas: for every element kind (load / storage / dcline with mirrored breakpoints) the cost variable of the
+   row — the maximum of its segment lines — is the user's function at the element's own power *)
+Theorem C17_pwl_two_areas : forall t l m u s1 s2 p, l < m -> m < u -> s1 <= s2 ->
+  exists v, obj_of_res (pwl_row t [(l, m, s1); (m, u, s2)]) (res_sign t * p) = Some v
+            /\ v == user_pwl [(l, m, s1); (m, u, s2)] p.
+Proof. exact pwl_two_areas. Qed.
+Print Assumptions C17_pwl_two_areas.
+
+(* regression: costs_from_areas before the repair (values times sign, breakpoints not mirrored) on a load *)
+Theorem C17_pwl_old_refuted :
   exists t pts p, consecutive pts = true /\
-    forall v, obj_of_res (pwl_row t pts) (res_sign t * p) = Some v -> ~ v == user_pwl pts p.
-Proof. exact pwl_neg_refuted. Qed.
-Print Assumptions C17_pwl_refuted.
+    forall v, obj_of_res (pwl_row_old t pts) (res_sign t * p) = Some v -> ~ v == user_pwl pts p.
+Proof. exact pwl_old_refuted. Qed.
+Print Assumptions C17_pwl_old_refuted.
+
+(* dcline cost entries address the row of the from-bus generator's index label; regression of the positional rule *)
+Theorem C17_dcline_row_is_from_gen : forall e el k lab,
+  index_of (dcl_index e) el 0 = Some k -> np_get (gen_labels e) (dcl_pos e k) = Some lab ->
+  get_gen_index e Dcline el = Ok (nonneg (lookup_get (lk_gen e) lab)).
+Proof. exact dcline_row_is_from_gen. Qed.
+Print Assumptions C17_dcline_row_is_from_gen.
+Theorem C17_dcline_row_old_refuted :
+  get_gen_index_old env_gapped Dcline 0 = Ok (Some 3%Z) /\ get_gen_index env_gapped Dcline 0 = Ok (Some 4%Z).
+Proof. exact dcline_row_old_refuted. Qed.
+Print Assumptions C17_dcline_row_old_refuted.
+
+(* a constant reactive cost creates the reactive rows; regression of the old q_costs test *)
+Theorem C17_cq0_creates_q_rows : forall c ws, ~ cq0 c == 0 -> q_costs [c] ws = true.
+Proof. exact cq0_creates_q_rows. Qed.
+Print Assumptions C17_cq0_creates_q_rows.
+Theorem C17_cq0_old_refuted : exists c, ~ cq0 c == 0 /\ q_costs_old [c] [] = false.
+Proof. exact cq0_old_refuted. Qed.
+Print Assumptions C17_cq0_old_refuted.
+
+(* every row is evaluated at its own variable; regression of the reactive cost-variable column offset *)
+Theorem C17_var_index_own : forall ngn i r, var_index ngn i r = i.
+Proof. exact var_index_own. Qed.
+Print Assumptions C17_var_index_own.
+Theorem C17_var_index_old_refuted : exists ngn i r, var_index_old ngn i r <> i.
+Proof. exact var_index_old_refuted. Qed.
+Print Assumptions C17_var_index_old_refuted.
 
 (* DC OPF is a convex program: any KKT point of  min sum a_i x_i^2 + b_i x_i + c_i  (a_i >= 0)
    s.t. A x = b, G x <= h  is a global minimiser *)
